@@ -96,6 +96,19 @@ class ReachingDefs:
         self.cfg = cfg
         self.defs_at = {n.id: _defs_of_node(n) for n in cfg.nodes}
         self.param_defs = [Def(p, cfg.entry, None, "param") for p in params]
+        # names whose object is mutated in place somewhere in the function: their defining expression
+        # does not describe their later value, so they are never substituted
+        self.mutated = set()
+        from .astutil import MUTATORS as _MUT, walk_local_body as _wlb
+        for sub in _wlb(cfg.func):
+            if isinstance(sub, ast.Call) and isinstance(sub.func, ast.Attribute) and sub.func.attr in _MUT \
+                    and isinstance(sub.func.value, ast.Name):
+                self.mutated.add(sub.func.value.id)
+            elif isinstance(sub, (ast.Assign, ast.AugAssign, ast.Delete)):
+                tg = sub.targets if isinstance(sub, (ast.Assign, ast.Delete)) else [sub.target]
+                for t in tg:
+                    if isinstance(t, ast.Subscript) and isinstance(t.value, ast.Name):
+                        self.mutated.add(t.value.id)
         self.IN = {}
         self._run()
 
@@ -130,13 +143,15 @@ class ReachingDefs:
         return [d for d in self.IN.get(node.id, ()) if d.name == name]
 
     def unique_value(self, name, node):
+        if name in self.mutated:
+            return None
         ds = self.reaching(name, node)
         if len(ds) == 1 and ds[0].kind == "assign" and ds[0].value is not None:
             return ds[0]
         return None
 
     # ---------------------------------------------------------------- expansion
-    def expand(self, expr, node, depth=6, _seen=None):
+    def expand(self, expr, node, depth=6, _seen=None, keep=()):
         """copy of expr with every local Name that has exactly one reaching plain assignment
         replaced by the assigned expression (recursively).  Names bound in comprehensions /
         lambdas inside expr are left alone."""
@@ -165,12 +180,12 @@ class ReachingDefs:
             visit_ListComp = visit_SetComp = visit_DictComp = visit_GeneratorExp = _comp
 
             def visit_Name(self, n):
-                if not isinstance(n.ctx, ast.Load) or n.id in self.bound:
+                if not isinstance(n.ctx, ast.Load) or n.id in self.bound or n.id in keep:
                     return n
                 d = rd.unique_value(n.id, node)
                 if d is None or depth <= 0 or (n.id, d.node.id) in _seen:
                     return n
-                sub = rd.expand(d.value, d.node, depth - 1, _seen | {(n.id, d.node.id)})
+                sub = rd.expand(d.value, d.node, depth - 1, _seen | {(n.id, d.node.id)}, keep)
                 return sub
 
         return T().visit(clone(expr))
